@@ -21,6 +21,7 @@ import (
 	"os"
 	"runtime"
 	"sort"
+	"strconv"
 	"strings"
 	"sync"
 	"sync/atomic"
@@ -84,6 +85,7 @@ func guard(f func() string) (res string) {
 // guardT is guard with a watchdog; a case that does not finish is the outcome "hang"; a log.Fatal
 // in any goroutine is the outcome "fatal".
 func guardT(d time.Duration, f func() string) string {
+	d *= watchdogScale()
 	fatalSeen.Store(false)
 	ch := make(chan string, 1)
 	go func() {
@@ -121,6 +123,15 @@ func guardT(d time.Duration, f func() string) string {
 			return "hang"
 		}
 	}
+}
+
+// watchdogScale: VERIF_WATCHDOG_SCALE=<n> multiplies every watchdog delay; the check driver re-runs, alone and with a
+// longer delay, the cases that ended in "hang" while the model expected an answer (a loaded machine is not a hang)
+func watchdogScale() time.Duration {
+	if v, err := strconv.Atoi(os.Getenv("VERIF_WATCHDOG_SCALE")); err == nil && v > 1 && v <= 100 {
+		return time.Duration(v)
+	}
+	return 1
 }
 
 func clean(s string) string {
